@@ -210,7 +210,7 @@ def setup_only(F, S):
     return setup - runtime
 
 
-def run(rec, F, tier="thorough"):
+def run(rec, F, tier="thorough", only=None):
     R = rec.rule("F8", "no freshly allocated managed handle is live across a later call that may collect unless it was rooted (push_root), stored somewhere, or handed to that call; liveness is a backward dataflow with kills; setup-only and non-collecting contexts are skipped")
     S = Summary(F)
     skip = setup_only(F, S)
@@ -285,6 +285,51 @@ def run(rec, F, tier="thorough"):
                         if tt["dest"]["l"] == d["l"]:
                             continue
                 st.extend(fn.succ(b))
+    # F8.c — allocating closures under accumulating iterator adaptors: `.map(|x| manage(x)).collect()`
+    # keeps every earlier result in a Rust container the collector cannot see while the next one is allocated
+    ACCUM = ("map", "filter_map", "flat_map", "scan", "fold", "map_while", "zip", "chain")
+    for fn in F.all_fns():
+        if fn.crate not in ("laythe_lib", "laythe_vm", "laythe_core") or fn.path in skip or "::test" in fn.path or fn.kind == "Promoted":
+            continue
+        if any(re.search(r"hooks::NoContext\b", ty) for ty in fn.locals):
+            continue
+        clos = sem.closure_paths_in(fn)
+        if not clos:
+            continue
+        for bi, t in fn.calls():
+            if lastseg(t["f"]) not in ACCUM or "iter" not in t["f"].lower():
+                continue
+            for cp in sem.closure_args_of_call(fn, t, clos):
+                c = F.fn(cp)
+                if c is None:
+                    continue
+                # does the closure return a value it just allocated?
+                fresh = False
+                for b2, t2 in c.calls():
+                    if S.call_may_gc(t2) and not t2["dest"]["p"] and GCT.search(c.locals[t2["dest"]["l"]]) and lastseg(t2["f"]) not in ("next",):
+                        al = alias_closure(c, t2["dest"]["l"], S)
+                        if 0 in al or any(s_["d"]["l"] == 0 and any(p_["l"] in al for p_ in sem.places_in_rvalue(s_["r"])) for _, _, s_ in c.stmts()):
+                            rooted = any(lastseg(x["f"]) == "push_root" for _, x in c.calls())
+                            if not rooted:
+                                fresh = True
+                if not fresh:
+                    continue
+                # lazy consumption (a `for` loop pulling one item at a time) handles each result before the next
+                # allocation; only eager accumulation keeps earlier results in Rust-side storage
+                tl = sem.forward_taint(fn, {t["dest"]["l"]})
+                eager = [lastseg(x["f"]) for _, x in fn.calls() if lastseg(x["f"]) in ("collect", "fold", "extend", "from_iter", "unzip", "partition", "last", "rev", "collect_into", "try_fold") and any((op_place(a) or {}).get("l") in tl for a in x["args"])]
+                if not eager:
+                    continue
+                if only is not None and not re.search(only, fn.path):
+                    continue
+                ndef += 1
+                who = re.sub(r".*::(\w+) as .*", r"\1", fn.path) if " as " in fn.path else fn.name
+                key = (fn.path, "closure", lastseg(t["f"]))
+                k = "F8.c/%s/%s" % (who, lastseg(t["f"]))
+                rec.inst(R, k, ok=False, loc=loc_of(t["sp"]))
+                rec.finding(R, k, "%s: a closure passed to Iterator::%s allocates a managed value and returns it; with two or more items the earlier results sit in a Rust-side iterator/collection that is not a GC root while the next one is allocated" % (who, lastseg(t["f"])), loc=loc_of(t["sp"]), fn=fn.path)
+    if only is not None:
+        reports = {k_: v_ for k_, v_ in reports.items() if re.search(only, k_[0])}
     for key, (fn, t, tt, hot) in sorted(reports.items(), key=lambda kv: str(kv[0])):
         who = re.sub(r".*::(\w+) as .*", r"\1", fn.path) if " as " in fn.path else fn.name
         if fn.kind == "Closure":
@@ -299,4 +344,4 @@ def run(rec, F, tier="thorough"):
     rec.rules[R]["instances"] += ndef - len(reports)
     rec.rules[R]["discharged"] += ndef - len(reports)
     rec.floor(R, "functions with two or more collection points", nfn, 60)
-    rec.floor(R, "fresh-handle definitions examined", ndef, 150)
+    rec.floor(R, "fresh-handle definitions examined", ndef, 150 if only is None else 1)
